@@ -333,3 +333,56 @@ def reused_parameter_list(S):
         S.claim('no_forward_call_when_forbidden', calls_second == 0)
     else:
         S.observe('second', second)
+
+
+def _channel_data(S, noise):
+    labels = ['red', 'green']
+    vals = np.empty((1, 2, 2), dtype=object if S.sym else float)
+    for j in range(2):
+        for c in range(2):
+            vals[0, j, c] = S.real(f'd{j}{labels[c]}')
+    return data_grid(vals, spacing=0.1, medium_index=1.33, illum_wavelen={'red': 0.66, 'green': 0.52},
+                     illum_polarization={'red': (1, 0), 'green': (0, 1)}, noise_sd=noise,
+                     extra_dims={'illumination': labels}), vals, labels
+
+
+def _per_channel_body(S, where):
+    from props.C06 import uf_theory
+    setup(S)
+    theory = uf_theory(S)
+    s_red, s_green = S.real('noise_red', pos=True), S.real('noise_green', pos=True)
+    noise = {'green': s_green, 'red': s_red}
+    data, dvals, labels = _channel_data(S, noise if where == 'data' else None)
+    pr = Uniform(0.2, 1.0, name='r')
+    kw = dict(noise_sd=noise) if where == 'model' else {}
+    model = AlphaModel(Sphere(n=1.59, r=pr, center=(0.2, 0.4, 3.0)), alpha=1.0, theory=theory, **kw)
+    vr = S.real('v_r', lo=0.2, hi=1.0)
+    llike = model.lnlike({'r': vr}, data)
+    S.observe('lnlike', llike)
+    fwd = calc_holo(data, Sphere(n=1.59, r=vr, center=(0.2, 0.4, 3.0)), theory=theory, scaling=1.0)
+    N = 4
+    two_pi = 2 * S.pi if S.sym else 2 * np.pi
+    res = 0
+    sig = {'red': s_red, 'green': s_green}
+    for ch in labels:
+        f = _flatvals(fwd.sel(illumination=ch)).reshape(-1)
+        d = dvals[0, :, labels.index(ch)]
+        for j in range(2):
+            res = res + ((f[j] - d[j]) / sig[ch]) ** 2
+    ref = -N / 2 * np.log(two_pi) - N * (np.log(s_red) + np.log(s_green)) / 2 - 0.5 * res
+    S.claim_eq('likelihood_is_gaussian_with_channel_noise', llike, ref)
+
+
+@obligation('C12.per_channel_noise.data', functions=FUNCS, timeout_s=180, nvalid=2,
+            stubs=['raw_fields := uninterpreted kernel'],
+            bounds='2-channel data (1x2 pixels per channel) whose noise_sd is per-channel (unequal, symbolic): '
+                   'Gaussian log-density with each residual divided by its channel noise and N*mean(log sigma)')
+def per_channel_noise_data(S):
+    _per_channel_body(S, 'data')
+
+
+@obligation('C12.per_channel_noise.model', functions=FUNCS, timeout_s=180, nvalid=2,
+            stubs=['raw_fields := uninterpreted kernel'],
+            bounds='same, with the per-channel noise given to the model as a dictionary (overrides the data)')
+def per_channel_noise_model(S):
+    _per_channel_body(S, 'model')
